@@ -181,6 +181,9 @@ ClosestFirst(x) == \A i \in BatchIssued(x), e \in Eligible(x.r.st) : i.k <= e.k
 \* "every fetch leaves the in-flight set when the record arrives, is reported complete, or times out"
 LeavesInFlight(x) ==
     /\ x.ev = "NotifyPut"   => \A e \in x.r.st.og : e.k # x.k \/ e \in x.r.issued
+    \* a record version that turned up in the store by another way (the fetched copy was found "already stored",
+    \* so no completion is notified) has arrived as well: the fetch is gone once the fetcher next sees the held set
+    /\ x.ev = "AddKeys"     => \A e \in x.r.st.og : x.held[e.k] # e.t
     /\ x.ev = "NotifyEarly" => \A e \in x.r.st.og : ~(e.k = x.k /\ e.t = x.t)
     \* (a timed-out fetch may be started afresh in the same step; then it is in `issued`)
     /\ \A e \in TimedOut(x) : e \notin x.r.st.og \/ e \in x.r.issued
